@@ -1445,6 +1445,58 @@ class Gen:
                     obligations=self.obligations, assumed=self.stubs, origin=self.origin)
 
 
+def auto_helper(repo, name, prefer=()):
+    """Locate a free function `name` in the repository's non-test sources and return Verus text for it.
+    If its body is a single side-effect-free expression the function gets the strongest postcondition
+    `ensures ret == <body>` (rule H: helper auto-contract); otherwise it is returned without a
+    contract and the caller must treat unproved obligations as undecided."""
+    import subprocess
+    try:
+        out = subprocess.run(["grep", "-rlE", r"fn\s+%s\s*[(<]" % re.escape(name), repo, "--include=*.rs",
+                              "--exclude-dir=target", "--exclude-dir=tests", "--exclude-dir=benches", "--exclude-dir=examples"],
+                             stdout=subprocess.PIPE).stdout.decode().split()
+    except Exception:
+        return None
+    out = [f for f in out if not f.endswith("_test.rs") and "/test_utils/" not in f and "/raft_test/" not in f]
+    found = []
+    for f in out:
+        src = open(f).read()
+        try:
+            loc = find_fn(src, name, None, 0)
+        except VxError:
+            continue
+        if " | " in loc["impl_header"] or loc["impl_header"].startswith(("impl", "trait")):
+            continue  # methods are not auto-extracted
+        found.append((f, src, loc))
+    if len(found) > 1 and prefer:
+        pf = [x for x in found if os.path.relpath(x[0], repo).split("/")[0] in prefer]
+        if pf:
+            found = pf
+    if len(found) != 1:
+        return None
+    f, src, loc = found[0]
+    rel = os.path.relpath(f, repo)
+    log = []
+    enabled = set(ALL_RULES)
+    lo, hi = loc["body_open"], loc["body_close"]
+    sig = clean_signature(src[loc["start"]:lo], enabled, log, rel, line_of(src, loc["fn_tok"]))
+    sig = re.sub(r"\bpub\s*(\([^)]*\))?\s*", "", sig)
+    sig = name_return(sig, enabled, log, rel, 0)
+    edits = rule_D1_D2(src, lo, hi, rel, log, enabled) + rule_D3(src, lo, hi, enabled) + rule_D5(src, lo, hi, enabled)
+    body = apply_edits(src, lo, hi, edits)
+    btoks = tokenize(body)
+    for t in reversed([t for t in btoks if t.kind == "comment"]):
+        body = body[:t.start] + body[t.end:]
+    inner = body.strip()[1:-1].strip()
+    simple = (";" not in inner and not re.search(r"\b(for|while|loop|let|return|match|if)\b", inner)
+              and not re.search(r"[A-Za-z_]\w*\s*\(", inner) and "->" in sig)
+    ens = ""
+    if simple:
+        ens = "\n    ensures ret == (%s)," % re.sub(r"\s+", " ", inner)
+    return dict(text=sig.rstrip() + ens + "\n" + body + "\n", file=rel, line=line_of(src, loc["fn_tok"]), auto_contract=bool(simple),
+                sha256=hashlib.sha256(src[loc["start"]:hi].encode()).hexdigest()[:16])
+
+
 def generate(vspec_path, out_rs, out_meta, repo=REPO):
     g = Gen(vspec_path, repo)
     text = g.run()
